@@ -99,6 +99,13 @@ class Session:
         finally:
             self._in_unreachable = False
 
+    def ri_sites(self, h):
+        """the representation invariant quantifies over 'whatever BoundSet::new accepts': sound only while every BoundSet is built there"""
+        sites = h.boundset_construction_sites()
+        extra = [x for x in sites if not (x.endswith('::new') or x.endswith('::clone'))]
+        self.results.append({'ob': 'every BoundSet { .. } aggregate in the MIR is built inside BoundSet::new (or the derived clone)', 'mode': 'syntactic', 'solver_s': 0.0, 'kind': 'prove',
+                             'verdict': 'inconclusive' if extra else 'holds', 'detail': ('other construction sites: ' + ', '.join(extra)) if extra else '', 'note': 'sites: ' + ', '.join(s.split('>::')[-1] for s in sites)})
+
     def bounds_ok(self, h, name, hyps):
         """unwinding assertion: no capacity / loop bound of the encoding is exceeded under the hypotheses"""
         conds = [c for _, c in h.eng.sink.bexc]
